@@ -623,6 +623,20 @@ func oneGeomWrite(res *core.Result, log *core.Log, lib wkbadapt.Lib, s *Scenario
 		res.Fail("bytes-differ", "bytes-differ:marshal", "Marshal(%s) of %s = %x, %v; reference %x", s.Codec, e.m, mb, merr, e.ref)
 		return false
 	}
+	// the returned bytes are the caller's: overwritten, they must not show in
+	// a later encoding (nor must the next encoding come back in the same array)
+	for i := range mb {
+		mb[i] = 0xa5
+	}
+	mb2, merr2 := lib.Marshal(e.g)
+	if merr2 != nil || !bytes.Equal(mb2, e.ref) {
+		res.Fail("bytes-differ", "bytes-differ:marshal-after-caller-overwrote-earlier-result", "Marshal(%s) of %s after the caller overwrote the bytes of the previous result = %x, %v; reference %x", s.Codec, e.m, mb2, merr2, e.ref)
+		return false
+	}
+	if len(mb) > 0 && len(mb2) > 0 && &mb[0] == &mb2[0] {
+		res.Fail("bytes-differ", "marshal-results-share-storage", "two Marshal results of %s share one backing array", e.m)
+		return false
+	}
 	hs, herr := lib.HexEncode(e.g)
 	if herr != nil || !strings.EqualFold(hs, hex.EncodeToString(e.ref)) {
 		res.Fail("bytes-differ", "bytes-differ:hex", "hex Encode(%s) of %s = %q, %v; reference %x", s.Codec, e.m, hs, herr, e.ref)
@@ -641,6 +655,20 @@ func oneGeomWrite(res *core.Result, log *core.Log, lib wkbadapt.Lib, s *Scenario
 		vb, isBytes := val.([]byte)
 		if verr != nil || !isBytes || !bytes.Equal(vb, refNDR) {
 			res.Fail("bytes-differ", "bytes-differ:sql-value", "SQL Value of %s = %x (%T), %v; reference NDR %x", e.m, vb, val, verr, refNDR)
+			return false
+		}
+		// a driver may hold on to the value while the next one is produced
+		val2, verr2 := lib.Value(e.g)
+		vb2, _ := val2.([]byte)
+		if verr2 != nil || !bytes.Equal(vb2, refNDR) || !bytes.Equal(vb, refNDR) {
+			res.Fail("bytes-differ", "bytes-differ:sql-value-after-next-value", "after a second Value() of %s the first result is %x and the second %x (%v); reference NDR %x", e.m, vb, vb2, verr2, refNDR)
+			return false
+		}
+		for i := range vb {
+			vb[i] = 0xa5
+		}
+		if !bytes.Equal(vb2, refNDR) {
+			res.Fail("bytes-differ", "sql-values-share-storage", "overwriting the first Value() result of %s changed the second to %x", e.m, vb2)
 			return false
 		}
 	}
@@ -974,11 +1002,25 @@ func wrappers(res *core.Result, log *core.Log, lib wkbadapt.Lib, s *Scenario, e 
 	}
 	var g geom.T
 	var err error
-	if p := core.Guard(func() { g, err = lib.Unmarshal(e.ref) }); p != "" {
+	buf := append([]byte(nil), e.ref...)
+	if p := core.Guard(func() { g, err = lib.Unmarshal(buf) }); p != "" {
 		res.Fail("panic", "panic:unmarshal:"+core.PanicSite(p), "Unmarshal panicked: %s", p)
 		return false
 	}
+	if !bytes.Equal(buf, e.ref) {
+		res.Fail("input-modified", "input-modified:Unmarshal", "Unmarshal changed its input bytes from %x to %x", e.ref, buf)
+		return false
+	}
 	if !check("Unmarshal", g, err) {
+		return false
+	}
+	// the input buffer is the caller's again after the call: reused for
+	// something else, the decoded geometry must not change
+	for i := range buf {
+		buf[i] ^= 0x5a
+	}
+	if obs, oerr := mgeom.Observe(g); oerr != nil || mgeom.Diff(obs, e.expect) != "" {
+		res.Fail("result-aliases-input", "result-aliases-input:Unmarshal", "the geometry Unmarshal returned changed when the caller reused the input buffer: now %s (%v), expected %s", obs, oerr, e.expect)
 		return false
 	}
 	hx := hex.EncodeToString(e.ref)
@@ -1001,11 +1043,20 @@ func wrappers(res *core.Result, log *core.Log, lib wkbadapt.Lib, s *Scenario, e 
 		return true
 	}
 	// The SQL scanners take the NDR or XDR bytes alike.
-	if p := core.Guard(func() { g, err = lib.Scan(e.m.T, append([]byte{}, e.ref...)) }); p != "" {
+	sbuf := append([]byte{}, e.ref...)
+	if p := core.Guard(func() { g, err = lib.Scan(e.m.T, sbuf) }); p != "" {
 		res.Fail("panic", "panic:scan:"+core.PanicSite(p), "Scan panicked: %s", p)
 		return false
 	}
 	if !check("Scan into "+e.m.T+" wrapper", g, err) {
+		return false
+	}
+	// database/sql only lends the bytes for the duration of Scan
+	for i := range sbuf {
+		sbuf[i] ^= 0x5a
+	}
+	if obs, oerr := mgeom.Observe(g); oerr != nil || mgeom.Diff(obs, e.expect) != "" {
+		res.Fail("result-aliases-input", "result-aliases-input:Scan", "the geometry a wrapper holds after Scan changed when the driver reused its buffer: now %s (%v), expected %s", obs, oerr, e.expect)
 		return false
 	}
 	if !s.Codec.EWKB {
